@@ -19,7 +19,7 @@ func init() {
 		Name:  "BUILD",
 		Doc:   "BuildFunc adapter plumbing; ValueSet accessors and loaders",
 		Run:   runBuild,
-		Floor: map[string]int{"BUILD": 6, "VSET": 7},
+		Floor: map[string]int{"BUILD": 6, "VSET": 10},
 	})
 }
 
@@ -411,6 +411,7 @@ func runBuild(c *Ctx) {
 			st, _ = ci.(*ssa.Call)
 		}
 		okT := st != nil
+		okTag := true
 		nlit := 0
 		if st != nil {
 			for _, ap := range appendSites(m, st.Common().Args[0]) {
@@ -424,10 +425,15 @@ func runBuild(c *Ctx) {
 					if !ok || fr.Owner != "Value" || fr.Field != "Type" {
 						okT = false
 					}
+					// … and carries the generated tag (the only carrier of the value's subtype and of "type only")
+					if lit["Tag"] == nil {
+						okTag = false
+					}
 				}
 			}
 		}
 		c.R.Add("VSET", "NewValueSet|field-types", "NewValueSet", p.Pos(m.Pos()), okT && nlit >= 2, "each listed value becomes a struct field of exactly that value's type", fmt.Sprintf("ok=%v literals=%d", okT, nlit))
+		c.R.Add("VSET", "NewValueSet|field-tags", "NewValueSet", p.Pos(m.Pos()), okTag && nlit >= 2, "each listed value's struct field carries the generated tag (which alone conveys its subtype and type-only flag to the struct walker)", fmt.Sprintf("ok=%v literals=%d", okTag, nlit))
 	}
 	// Signature / SignatureValues: the rendered type list and the rendered value list are empty under the same test on
 	// the set — a built function's type is made from the first and its results from the second (siblings must agree)
@@ -511,6 +517,47 @@ func runBuild(c *Ctx) {
 				c.R.Add("VSET", "FromSignature|loads-nothing-when-Signature-is-empty", "ValueSet.FromSignature", p.Pos(fs.Pos()), covered,
 					"loading a signature returns without touching the list under the test that makes Signature() empty",
 					fmt.Sprintf("Signature empty when {%s}; FromSignature returns early under that test: %v", strings.Join(as, " & "), covered))
+			}
+			// the loader only reads the list it is given (the outputs of a Result, possibly a memoized one): it never
+			// stores into it or appends onto it
+			if fs := p.Method(p.Arg, "ValueSet", "FromSignature"); fs != nil && len(fs.Params) > 1 {
+				list := fs.Params[1]
+				wr := ""
+				rootIsList := func(v ssa.Value) bool {
+					for i := 0; i < 6; i++ {
+						switch x := core.Strip(v).(type) {
+						case *ssa.Slice:
+							v = x.X
+							continue
+						case *ssa.Phi:
+							for _, e := range x.Edges {
+								if core.Strip(e) == ssa.Value(list) {
+									return true
+								}
+							}
+							return false
+						case *ssa.Parameter:
+							return x == list
+						}
+						return false
+					}
+					return false
+				}
+				p.RegionInstrs(fs, func(in ssa.Instruction) {
+					switch x := in.(type) {
+					case *ssa.Store:
+						if ia, ok := x.Addr.(*ssa.IndexAddr); ok && rootIsList(ia.X) {
+							wr = "store into the given list at " + p.InstrPos(in)
+						}
+					case *ssa.Call:
+						n := core.CalleeName(x.Common())
+						if (n == "builtin.append" || n == "builtin.copy") && rootIsList(x.Common().Args[0]) {
+							wr = n + " onto the given list at " + p.InstrPos(in)
+						}
+					}
+				})
+				c.R.Add("VSET", "FromSignature|given-list-read-only", "ValueSet.FromSignature", p.Pos(fs.Pos()), wr == "",
+					"loading a signature never writes into the list it is handed (the outputs of a Result that the caller, or a run-once memo, still holds)", ternary(wr == "", "read only", wr))
 			}
 			c.R.Add("VSET", "Signature|empty-under-the-same-test-as-SignatureValues", "ValueSet.Signature", p.Pos(sig.Pos()), same,
 				"the rendered type list (Signature) and the rendered value list (SignatureValues) are empty under the same test on the set",
